@@ -39,22 +39,26 @@ Definition loop_body {St : Type} (alpha : Q) : St * Q * Q -> Q * Q -> Q * Q * bo
     let probability := py_min2_Q (alpha - gathered) probability in
     let expectation := expectation + probability * value in
     let gathered := gathered + probability in
-    if isclose gathered alpha then ((expectation, gathered), true) else ((expectation, gathered), false).
+    if isclose_tol 0 gathered alpha then ((expectation, gathered), true) else ((expectation, gathered), false).
 
 Lemma loop_accumulate {St : Type} (alpha : Q) (l : list (St * Q * Q)) : forall e g,
   fst (py_for_break l (loop_body alpha) (e, g)) = accumulate alpha (map drop_state l) g e.
 Proof.
+  unfold accumulate.
   induction l as [|[[s p] v] t IH]; intros e g; [reflexivity|].
-  cbn [py_for_break map drop_state fst snd accumulate loop_body].
+  cbn [py_for_break map drop_state fst snd accumulate_gen break_test loop_body].
   change (py_min2_Q (alpha - g) p) with (py_min2 (alpha - g) p).
-  destruct (isclose (g + py_min2 (alpha - g) p) alpha); [reflexivity | apply IH].
+  rewrite isclose_tol_0.
+  destruct (isclose_rel (g + py_min2 (alpha - g) p) alpha); [reflexivity | apply IH].
 Qed.
 
 Lemma link_get_expectation : forall (St : Type) (l : list (St * Q * Q)) (alpha : Q),
   gen_get_expectation St l alpha = get_expectation (map drop_state l) alpha.
 Proof.
-  intros St l alpha. unfold gen_get_expectation, get_expectation.
+  intros St l alpha. unfold gen_get_expectation, get_expectation, get_expectation_gen.
   change (inject_Z 1) with 1. change (inject_Z 0) with 0.
+  change (isclose_tol atol alpha 1) with (isclose alpha 1).
+  change (accumulate_gen false) with accumulate.
   set (l' := if negb (isclose alpha 1) then _ else _).
   assert (El : map drop_state l' = if isclose alpha 1 then map drop_state l else sort_by_value (map drop_state l)).
   { subst l'. destruct (isclose alpha 1); cbn [negb]; [reflexivity | apply drop_sorted]. }
@@ -119,6 +123,7 @@ Proof.
   change (Qle_bool alpha (inject_Z 0) || _)%bool with (Qle_bool alpha (inject_Z 0) || PyPrelude.Qltb (inject_Z 1) alpha)%bool.
   rewrite alpha_guard. destruct (negb (alpha_ok alpha)); [reflexivity|].
   change (inject_Z 1) with 1. unfold sampled_expectation_value.
+  change (isclose_tol atol alpha 1) with (isclose alpha 1).
   destruct (isclose alpha 1); [reflexivity|].
   rewrite link_get_expectation, drop_sorted, map_map.
   assert (E : forall (l : list (N * Q)),
